@@ -83,6 +83,7 @@ static Case gen_c02()
 {
   Case c;
   GenOpts o;
+  o.max_len = 12288;
   gen_enc(c, o);
   return c;
 }
